@@ -116,20 +116,32 @@ func runGraceful(w *World, rs *RunSpec) {
 		}
 		simrt.Emit(simrt.Event{Kind: EvCheckpoint, S: "shutdown-in-effect"})
 	}
-	w.AtFrame(trigger, "graceful", func() {
+	// exactly one of the frame trigger and the fallback below initiates the
+	// shutdown and starts the late callers (no scheduling point lies between
+	// the test and the assignment)
+	claimed := false
+	fire := func() {
+		if claimed {
+			return
+		}
+		claimed = true
 		initiate()
 		lcs = w.StartCallers(late)
-	})
+	}
+	w.AtFrame(trigger, "graceful", fire)
 	ics := w.StartCallers(inflight)
 	if !ics.Wait() {
 		simrt.Emit(simrt.Event{Kind: EvCheckpoint, S: "bystanders-stalled", S2: simrt.LiveStacks()})
 	}
 	points := w.frameCount
 	w.frameTriggers = nil
-	if !shutdownDone && k >= 0 {
+	if k >= 0 {
 		// the workload was shorter than k frames: shut down now, with nothing in flight
-		initiate()
-		lcs = w.StartCallers(late)
+		fire()
+	}
+	for i := 0; claimed && lcs == nil && i < 1000; i++ {
+		// the frame trigger is still in the middle of initiating the shutdown
+		simrt.Sleep(time.Microsecond)
 	}
 	if lcs != nil && !lcs.Wait() {
 		simrt.Emit(simrt.Event{Kind: EvCheckpoint, S: "late-stalled", S2: simrt.LiveStacks()})
